@@ -39,13 +39,21 @@ func runBatchWire(t *testing.T, rc *RunCtx) {
 	}
 	defer cc.Close()
 	api := remoteSigner{cl: pb.NewSignerClient(cc), timeout: 60 * time.Second}
-	sizes := []int{1, 2, 3, 16, 64, 128, 200, 256}
+	sizes := []int{1, 2, 3, 16, 64, 128, 200, 256, 300, 384, 450, 512}
 	half := len(pop.Accts) / 2
 	n := sizes[ch.Pick(len(sizes), 0)]
 	if ch.Pick(2, 0) == 1 {
-		n = 1 + ch.Pick(half-2, 0)
+		n = 1 + ch.Pick(len(pop.Accts)-12, 0)
 	}
-	start := ch.Pick(half-n, 0)
+	// Batches of up to half the wallet are mirrored one at a time on the other half; larger ones are judged against the
+	// reference alone (every entry is a valid, advancing duty of an authorised client for a distinct key).
+	mirrored := n <= half-2
+	start := 0
+	if mirrored {
+		start = ch.Pick(half-n, 0)
+	} else {
+		start = ch.Pick(len(pop.Accts)-n, 0)
+	}
 	// Epochs advance with every run of this process (the instance lives as long as the process).
 	wireEpoch++
 	src, tgt := wireEpoch*3, wireEpoch*3+1+uint64(ch.Pick(2, 0))
@@ -56,9 +64,11 @@ func runBatchWire(t *testing.T, rc *RunCtx) {
 		e := AttEntry(start+j, src, tgt, wireEpoch*100000+uint64(j))
 		e.ByKey = byKey
 		batch.Entries = append(batch.Entries, e)
-		e2 := AttEntry(half+start+j, src, tgt, wireEpoch*100000+50000+uint64(j))
-		e2.ByKey = byKey
-		singles = append(singles, &Op{Kind: "att", Entries: []Entry{e2}})
+		if mirrored {
+			e2 := AttEntry(half+start+j, src, tgt, wireEpoch*100000+50000+uint64(j))
+			e2.ByKey = byKey
+			singles = append(singles, &Op{Kind: "att", Entries: []Entry{e2}})
+		}
 	}
 	rb := batch.ExecVia(context.Background(), pop, api)
 	signedBatch := 0
@@ -78,8 +88,8 @@ func runBatchWire(t *testing.T, rc *RunCtx) {
 	rc.Stats.Seen("cases", fmt.Sprintf("wire/%d/%v", n, byKey))
 	rc.Sample = map[string]any{"layer": "batches over the real gRPC edge", "size": n, "by_key": byKey, "signed_in_batch": signedBatch, "signed_one_at_a_time": signedSingle}
 	rc.Logf("wire batch of %d (%d>%d): batch signed %d (err=%v), singles signed %d", n, src, tgt, signedBatch, rb.Err, signedSingle)
-	if signedBatch != n || signedSingle != n {
-		rc.Violate("C09", "batch-differs-from-one-at-a-time", fmt.Sprintf("over the gRPC edge a batch of %d valid, advancing attestation duties (%d>%d) for distinct keys had %d signed (error: %v), the same duties for %d other keys with the same history sent one at a time had %d signed", n, src, tgt, signedBatch, rb.Err, n, signedSingle), 0)
+	if signedBatch != n || signedSingle != len(singles) {
+		rc.Violate("C09", "batch-differs-from-one-at-a-time", fmt.Sprintf("over the gRPC edge a batch of %d valid, advancing attestation duties (%d>%d) for distinct keys had %d signed (error: %v), the same duties for %d other keys with the same history sent one at a time had %d signed", n, src, tgt, signedBatch, rb.Err, len(singles), signedSingle), 0)
 	}
 }
 
